@@ -622,6 +622,12 @@ func handleInputStream(s *Session, handler Handler) (err error) {
 		id:          id,
 	}
 	if err := handler.HandleXMPP(rw, &start); err != nil {
+		if err == io.EOF {
+			// A handler that ran out of tokens (eg. because a stanza had no
+			// payload) must not be mistaken for the end of the input stream, which
+			// would end the session silently and without an error.
+			err = io.ErrUnexpectedEOF
+		}
 		return err
 	}
 	if rw.readErr != nil {
